@@ -46,6 +46,17 @@ func (g *gen) fault() {
 	g.add(jop{K: "adv", N: a}, jop{K: "hb"}, jop{K: "adv", N: g.deadline - a + 1 + g.r.Intn(g.deadline/2+1)}, jop{K: "hb"})
 }
 
+// lateAcks: members of the lost assembly acknowledge its checkpoint while the new assembly is being deployed
+func (g *gen) lateAcks() {
+	switch g.r.Intn(4) {
+	case 0:
+	case 1:
+		g.add(jop{K: "ackold", Who: g.who(), N: g.r.Intn(g.wc)})
+	default:
+		g.add(jop{K: "ackallold", N: g.r.Intn(1000)})
+	}
+}
+
 // recover: fresh nodes register (or nothing when standbys exist), heartbeats give the job an event to react to
 func (g *gen) recoverNodes() {
 	switch g.r.Intn(5) {
@@ -161,6 +172,7 @@ func genCase(r *hx.Rand, idx int, tier string) *hx.Case {
 			g.checkpointRound(false)
 			g.fault()
 			g.recoverNodes()
+			g.lateAcks()
 			if r.Chance(1, 4) { // and a fault during the redeployment
 				g.fault()
 				g.add(jop{K: "fin", OK: r.Chance(3, 4)})
@@ -196,9 +208,59 @@ func genCase(r *hx.Rand, idx int, tier string) *hx.Case {
 	return c
 }
 
+// genLateAck (mode c12): only the reassembly-with-late-ack regime: checkpoint partly acknowledged, a member is lost,
+// the new assembly's Deploy is gated, members of the lost assembly acknowledge, deployment ends, next checkpoint
+func genLateAck(r *hx.Rand, idx int) *hx.Case {
+	g := &gen{r: r}
+	g.wc = []int{1, 2, 2, 3}[r.Intn(4)]
+	g.deadline = 5000
+	sb := r.Intn(2)
+	g.nextOp, g.nextSr = g.wc+sb, g.wc+sb
+	for i := 0; i < g.nextOp; i++ {
+		g.add(jop{K: "reg", Who: "op", N: i})
+	}
+	for i := 0; i < g.nextSr; i++ {
+		g.add(jop{K: "reg", Who: "sr", N: i})
+	}
+	g.add(jop{K: "fin", OK: true})
+	if r.Chance(1, 3) {
+		g.checkpointRound(true)
+	}
+	for k := r.Range(1, 2); k > 0; k-- {
+		g.checkpointRound(false)
+		g.fault()
+		g.recoverNodes()
+		g.add(jop{K: "ackallold", N: r.Intn(1000)})
+		if r.Chance(1, 3) {
+			g.add(jop{K: "ackold", Who: g.who(), N: r.Intn(g.wc)})
+		}
+		g.add(jop{K: "fin", OK: r.Chance(5, 6), N: r.Intn(8)}, jop{K: "fin", OK: true})
+		if r.Chance(1, 2) {
+			g.add(jop{K: "ackallold", N: r.Intn(1000)})
+		}
+		g.checkpointRound(true)
+	}
+	c := &hx.Case{Name: fmt.Sprintf("lateack-%d", idx), Params: map[string]any{"mode": "c12", "wc": g.wc, "deadline": g.deadline}}
+	for _, o := range g.ops {
+		c.Ops = append(c.Ops, hx.Op(o))
+	}
+	return c
+}
+
 func (e eng) Generate(mode, tier string, r *hx.Rand) []*hx.Case {
 	if mode == "slot" {
 		return genSlot(tier, r)
+	}
+	if mode == "c12" {
+		n := 150
+		if tier == "thorough" {
+			n = 1500
+		}
+		var cs []*hx.Case
+		for i := 0; i < n; i++ {
+			cs = append(cs, genLateAck(r.Fork(), i))
+		}
+		return cs
 	}
 	n := 700
 	if tier == "thorough" {
